@@ -7,7 +7,8 @@ Oracle (implementation only): a valid dataset directory in which ONE text field 
 (expressions with side effects carrying a unique canary, paths, numbers, names, version lines) is loaded / upgraded under a
 sys.addaudithook monitor: no compile/exec of anything containing the field, no process, no socket, no import of a new module, no
 canary side effect; loading opens files for reading only and only under the directory; upgrading writes, moves and removes only
-under the directory; an invalid element type is reported as an error.
+under the directory; an invalid element type is reported as an error, and so is a field of a NUMERIC column (integer timestamps,
+the floats of a pose in trajectories.txt / rigs.txt) that is not a number (an empty pose field stands for "no value").
 """
 import json
 import os
@@ -25,7 +26,8 @@ GEN = ['DtypeNames', 'FileNames', 'Headers']
 RULE = ('each case = a generated dataset written to disk (1.1 for the load path, 1.0 for the upgrade path), then one text field '
         '(file, row, column drawn uniformly over all text files incl. descriptor files and the version line) replaced by a string '
         'from a pool of ~30 payloads (side-effect expressions with a canary, path traversals, absolute paths, numbers, empty, '
-        'unicode, version lines, long strings); plus datasets with 5000 (thorough: up to 66000) image records and 50 times as many 3-D points (at most 300000); distinct non-trivial = distinct (file, column, payload class) reached')
+        'unicode, version lines, long strings); a quarter of the load cases aim at the numeric columns (timestamps, pose fields), half of '
+        'those at the last line of the file; plus datasets with 5000 (thorough: up to 66000) image records and 50 times as many 3-D points (at most 300000); distinct non-trivial = distinct (file, column, payload class) reached')
 ASSUMPTIONS = [
     'that the interpreter does nothing else is OBSERVED through audit events (open, compile, exec, import, os.system, '
     'subprocess.Popen, socket.*, os.remove, os.rename, shutil.move, os.mkdir ...), not proved',
@@ -33,7 +35,9 @@ ASSUMPTIONS = [
     'tar handlers are opened by the caller, not by kapture_from_dir; they are outside this check',
 ]
 TRUSTED = ['CPython audit hooks']
-PARTIAL = 'effect discipline of the model proved; absence of evaluation in the interpreter observed via audit events'
+PARTIAL = ('effect discipline of the model proved; absence of evaluation in the interpreter observed via audit events; "an invalid value '
+           'is reported" is proved on the models of the element-type lookup and of the trajectory / rig readers (Model/C01Typed.lean, tied to the '
+           'code by the C01 correspondence) and observed on the real loader for every numeric column')
 _cache = {}
 # one canary folder per harness process: several checks of this property may run at the same time (a sweep in the background)
 CANARY_DIR = os.path.join(tempfile.gettempdir(), 'c16_canary_%d' % os.getpid())
